@@ -105,12 +105,27 @@ def sh_calls(n: size, a: f32[n], b: f32[n], c: f32[n], d: f32[n], e: f32[n]):
     b[0] = 76.0
 
 
+# ---- a reduction scaled by a constant, with labelled statements before and after it (lift_reduce_constant,
+#      fold_into_reduce, merge_writes act in the middle of the block)
+@proc
+def sh_reduce(n: size, x: f32[n], a: f32[1], b: f32[1], c: f32[1], d: f32[n]):
+    a[0] = 81.0
+    acc: f32
+    acc = 0.0
+    for i in seq(0, n):
+        acc += 7.0 * x[i]
+    b[0] = 82.0
+    for j in seq(0, n):
+        d[j] = 83.0
+    c[0] = acc + 84.0
+
+
 def _eqv():
     from exo.stdlib.scheduling import divide_loop, rename, simplify
     return {"sh_callee_div": rename(simplify(divide_loop(sh_callee, "q", 2, ["qo", "qi"], tail="cut")), "sh_callee_div")}
 
 
-PROCS = [sh_flat, sh_nest, sh_if, sh_seq, sh_deep, sh_alloc, sh_const, sh_calls]
+PROCS = [sh_flat, sh_nest, sh_if, sh_seq, sh_deep, sh_alloc, sh_const, sh_calls, sh_reduce]
 CONFIGS = []
 EQV_PROCS = _eqv()
 SUBPROCS = {"sh_callee": sh_callee}
